@@ -23,4 +23,13 @@ let line l =
      | Some o -> "(" ^ String.concat " " (List.map show_pk o) ^ ")")
   | _ -> failwith "line"
 
-let () = each_line line
+(* ((id min max) ...) -> the entries of the generated switch, lowest first: "lo-hi:id,id;..." *)
+let table_line l =
+  match parse l with
+  | L rs ->
+    let rs = List.map (function L [i; a; b] -> { r_id = nat_of_int (int_of i); r_min = nat_of_int (int_of a); r_max = nat_of_int (int_of b) } | _ -> failwith "remap") rs in
+    String.concat ";" (List.map (fun ((lo, hi), ids) -> string_of_int (int_of_nat lo) ^ "-" ^ string_of_int (int_of_nat hi) ^ ":" ^
+                                  String.concat "," (List.map (fun i -> string_of_int (int_of_nat i)) ids)) (arity_labels rs))
+  | _ -> failwith "table"
+
+let () = if Array.length Sys.argv > 1 && Sys.argv.(1) = "table" then each_line table_line else each_line line
